@@ -45,6 +45,8 @@
 package interp
 
 import (
+	"path/filepath"
+	"strings"
 	"fmt"
 	"go/token"
 	"go/types"
@@ -108,6 +110,8 @@ type frame struct {
 	panicking        bool
 	panic            interface{}
 	phitemps         []value // temporaries for parallel phi assignment
+	phiOverride      map[*ssa.Phi]value
+	cur              ssa.Instruction
 }
 
 func (fr *frame) get(key ssa.Value) value {
@@ -188,6 +192,7 @@ func lookupMethod(i *interpreter, typ types.Type, meth *types.Func) *ssa.Functio
 // read the next instruction from.
 func visitInstr(fr *frame, instr ssa.Instruction) continuation {
 	EX.step()
+	EX.curFrame = fr
 	switch instr := instr.(type) {
 	case *ssa.DebugRef:
 		// no-op
@@ -260,7 +265,13 @@ func visitInstr(fr *frame, instr ssa.Instruction) continuation {
 
 	case *ssa.If:
 		succ := 1
-		if concretizeBool(fr.get(instr.Cond)) {
+		cv := fr.get(instr.Cond)
+		if sb, ok := cv.(symBool); ok && EX.spec == 0 {
+			if _, known := EX.lookupKnown(sb.t); !known && tryIfConvert(fr, instr, sb.t) {
+				return kJump
+			}
+		}
+		if concretizeBool(cv) {
 			succ = 0
 		}
 		fr.prevBlock, fr.block = fr.block, fr.block.Succs[succ]
@@ -557,8 +568,8 @@ func runFrame(fr *frame) {
 		}
 		fr.panicking = true
 		fr.panic = recover()
-		if fr.i.mode&EnableTracing != 0 {
-			fmt.Fprintf(os.Stderr, "Panicking: %T %v.\n", fr.panic, fr.panic)
+		if EX.panicTrace == "" && EX.spec == 0 {
+			EX.panicTrace = interpStack(fr)
 		}
 		fr.runDefers()
 		fr.block = fr.fn.Recover
@@ -578,6 +589,7 @@ func runFrame(fr *frame) {
 					fmt.Fprintln(os.Stderr, "\t", instr)
 				}
 			}
+			fr.cur = instr
 			if visitInstr(fr, instr) == kReturn {
 				return
 			}
@@ -599,6 +611,9 @@ func executePhis(fr *frame) []ssa.Instruction {
 	// Inv: 0 <= firstNonPhi; every block contains a non-phi.
 
 	nonPhis := fr.block.Instrs[firstNonPhi:]
+	if firstNonPhi == 0 {
+		fr.phiOverride = nil
+	}
 	if firstNonPhi > 0 {
 		phis := fr.block.Instrs[:firstNonPhi]
 		// Execute parallel assignment of phis.
@@ -609,11 +624,13 @@ func executePhis(fr *frame) []ssa.Instruction {
 		fr.phitemps = fr.phitemps[:0]
 		for _, phi := range phis {
 			phi := phi.(*ssa.Phi)
-			if fr.i.mode&EnableTracing != 0 {
-				fmt.Fprintln(os.Stderr, "\t", phi.Name(), "=", phi)
+			if fr.phiOverride != nil {
+				fr.phitemps = append(fr.phitemps, fr.phiOverride[phi])
+				continue
 			}
 			fr.phitemps = append(fr.phitemps, fr.get(phi.Edges[predIndex]))
 		}
+		fr.phiOverride = nil
 		for i, phi := range phis {
 			fr.env[phi.(*ssa.Phi)] = fr.phitemps[i]
 		}
@@ -743,4 +760,21 @@ func fieldName(instr *ssa.FieldAddr) string {
 		return st.Field(instr.Field).Name()
 	}
 	return "?"
+}
+
+// interpStack renders the interpreted call stack (for diagnostics and panic sites).
+func interpStack(fr *frame) string {
+	var sb strings.Builder
+	for f := fr; f != nil; f = f.caller {
+		pos := ""
+		if f.cur != nil {
+			p := f.i.prog.Fset.Position(f.cur.Pos())
+			if p.IsValid() {
+				pos = fmt.Sprintf(" %s:%d", filepath.Base(p.Filename), p.Line)
+			}
+			pos += "  [" + f.cur.String() + "]"
+		}
+		fmt.Fprintf(&sb, "  %s%s\n", f.fn.String(), pos)
+	}
+	return sb.String()
 }
